@@ -296,7 +296,44 @@ def r9_complete_writes(ctx):
     ctx.floor("R01.9", "write_all call sites (matcher self-check)", n_all, 15)
 
 
+def r11_poll_write_accounting(ctx):
+    """AsyncWrite::poll_write reports exactly what it queued: the whole caller buffer is copied and its length returned"""
+    body = ctx.body("R01.11", "<session::stream::Stream as tokio::io::AsyncWrite>::poll_write")
+    if body is None:
+        return
+    o = ctx.origins(body)
+    from .common import param
+    bufp = param(body, 2)
+    cp = calls_norm(body, "Bytes::copy_from_slice")
+    if not ctx.floor("R01.11", "Bytes::copy_from_slice in poll_write", len(cp), 1):
+        return
+    src = o.of_operand(cp[0].args[0])
+    whole = var_name(src) == bufp
+    rets = []
+    for kind, bi, si, rv in body.defs().get(0, []):
+        if kind == "assign" and rv["r"] == "aggregate" and rv["kind"].get("variant") == "Ready":
+            t = o.of_operand(rv["ops"][0])
+            if isinstance(t, tuple) and t[0] == "agg" and t[2] == "Ok" and t[3]:
+                rets.append(t[3][0])
+    lens_ok = bool(rets) and all((is_call_term(r, "::len") and var_name(r[3][0]) == bufp) or (isinstance(r, tuple) and r[0] == "len" and var_name(r[1]) == bufp) or
+                                 (whole is False and is_call_term(r, "::len") and strip_bb(r[3][0]) == strip_bb(o.of_operand(cp[0].dest and cp[0].args[0]))) for r in rets)
+    if whole:
+        ok = lens_ok
+        det = "poll_write queues a copy of the whole buffer and returns buf.len()"
+    else:
+        # a partial copy is fine only if exactly the copied length is what is reported
+        copied = None
+        for s in subterms(src):
+            if isinstance(s, tuple) and s[0] == "agg" and "RangeTo" in s[1] and s[3]:
+                copied = s[3][0]
+        ok = copied is not None and bool(rets) and all(strip_bb(r) == strip_bb(copied) for r in rets)
+        det = "poll_write queues buf[..n] and returns the same n"
+    ctx.ob("R01.11", "poll_write:reports-what-it-queued", ok, cp[0].site, det if ok else
+           "poll_write queues `%s` but reports %s bytes as written: the caller is told that bytes were accepted which are never sent — the tail of a large write silently disappears" % (fmt(src)[:70], [fmt(r)[:30] for r in rets]))
+
+
 def run(ctx):
+    r11_poll_write_accounting(ctx)
     r1_encode_cast(ctx)
     r2_chunking(ctx)
     r3_r4_recv_buffer(ctx)
